@@ -14,6 +14,11 @@ def check(scn, H, view=None):
     load_on = H.get('load_on')
     if load_on is None or load_on != v.chain[-1]:
         return out, v.stats
+    if scn.get('load2') is not None:
+        # an external torque on an intermediate gear as well: outside the
+        # quantifier of C02 ("the external load on the last element")
+        v.stats['skipped_second_load'] += 1
+        return out, v.stats
     # a run of a legal history that dies with an internal error records no
     # torque at all for the instant it was computing
     for ep in v.epochs:
